@@ -5,6 +5,7 @@ import (
 	"encoding/json"
 	"fmt"
 	"html"
+	"strconv"
 	"net/url"
 	"strings"
 
@@ -305,7 +306,8 @@ func init() {
 // ---- built-ins against the Go function each is documented to expose
 
 func genBuiltinCase(r *h.Rand) h.Case {
-	strs := []string{"", "a", "Hello World", "  pad\t\n", "<a href='x'>&\"", "aXbXc", "ÀÉîõü straße", "a,b,,c", "x y&z=1/2?", "ǅ"}
+	strs := []string{"", "a", "Hello World", "  pad\t\n", "<a href='x'>&\"", "aXbXc", "ÀÉîõü straße", "a,b,,c", "x y&z=1/2?", "ǅ",
+		"a\x00b<", "\x00", "caf\xc3&", "\r\n+\u2028", "\ufffd'"}
 	s1, s2, s3 := r.Pick(strs), r.Pick([]string{"", "a", "X", ",", "l", "He", "c", " "}), r.Pick([]string{"", "Y", "<>", "--"})
 	n := r.Intn(5) - 1
 	type bc struct {
@@ -313,7 +315,7 @@ func genBuiltinCase(r *h.Rand) h.Case {
 		want func() string
 	}
 	esc := func(s string) string { return htmlEsc(s) }
-	q := func(s string) string { return `"` + strings.NewReplacer(`\`, `\\`, `"`, `\"`, "\t", `\t`, "\n", `\n`).Replace(s) + `"` }
+	q := strconv.Quote // Go syntax, which is what jet's string literals are read with
 	jsonOf := func(v interface{}) string { b, _ := json.Marshal(v); return string(b) }
 	cases := []bc{
 		{`{{lower(` + q(s1) + `)}}`, func() string { return esc(strings.ToLower(s1)) }},
@@ -348,6 +350,16 @@ func genBuiltinCase(r *h.Rand) h.Case {
 		{`{{x := slice(` + q(s1) + `, ` + fmt.Sprint(n) + `, true)}}{{x[0]|raw}}/{{x[1]}}/{{x[2]}}/{{len(x)}}`, func() string { return fmt.Sprintf("%s/%d/true/3", s1, n) }},
 		{`{{x := array(` + q(s1) + `)}}{{x[0]|raw}}/{{len(x)}}`, func() string { return s1 + "/1" }},
 	}
+	// the escaping built-ins on what escapers treat differently from one another: NUL, the quote
+	// characters, bytes that are not UTF-8, '+' and space
+	hard := r.Pick([]string{"a\x00b", "\x00<", "'\"&<>", "caf\xc3", "a b+c", "\x00"})
+	cases = append(cases,
+		bc{`{{html(` + q(hard) + `) | raw}}`, func() string { return html.EscapeString(hard) }},
+		bc{`{{` + q(hard) + ` | html | raw}}|{{len(html(` + q(hard) + `))}}`, func() string { return html.EscapeString(hard) + "|" + fmt.Sprint(len(html.EscapeString(hard))) }},
+		bc{`{{html: ` + q(hard) + `}}`, func() string { return esc(html.EscapeString(hard)) }},
+		bc{`{{url(` + q(hard) + `) | raw}}|{{` + q(hard) + ` | url | raw}}`, func() string { return url.QueryEscape(hard) + "|" + url.QueryEscape(hard) }},
+		bc{`{{json(` + q(hard) + `) | raw}}`, func() string { return jsonOf(hard) }},
+	)
 	c := cases[r.Intn(len(cases))]
 	p := formsProg(r, formSet{})
 	p.files["/main.jet"] = c.src
